@@ -219,6 +219,25 @@ PROPS["C18"] = {
 }
 
 
+PROPS["C20"] = {
+    "exhaustive": [
+        {"spec": "Keystore.tla", "cfg": "Keystore_quick.cfg"},
+        {"spec": "Keystore.tla", "cfg": "Keystore_thorough.cfg"},
+        {"spec": "Keystore.tla", "cfg": "Keystore_neg_sync.cfg", "expect": "violation"},
+        {"spec": "Keystore.tla", "cfg": "Keystore_neg_drain.cfg", "expect": "violation"},
+        {"spec": "Keystore.tla", "cfg": "Keystore_neg_teardown.cfg", "expect": "violation"},
+    ],
+    "drivers": [{"test": "TestKeystore", "trace_spec": "KeystoreTrace.tla", "trace_cfg": "KeystoreTrace.cfg", "inv_cfg": {"C20": "KeystoreTrace_C20.cfg"}}],
+    "assumptions": [
+        "datastores are journalled in-memory stores; a batch commit is atomic; a crash keeps, per physical store, everything up to its last Sync and a chosen prefix of its later writes (shared mode = one store, factory mode = meta + one store per slot)",
+        "concurrent Puts are issued once the reset has demonstrably started (its first key was taken); a Put racing with the very start of ResetCids may be ordered before the reset",
+        "concurrent Delete/Empty during a reset are outside the property and not generated",
+        "the library's own select statements choose among ready cases at random, so a breach is reproduced by re-running its scenario under its recorded schedule and 300 further seeded schedules",
+    ],
+    "explanation": "Keystore.tla models the atomic reset in factory mode (per-store durable/unsynced content, phases, buffered concurrent puts, marker flip, teardown, crash at any step) and is model-checked for reset atomicity with three negative controls; the real Keystore and ResettableKeystore (shared and factory mode) run random histories with clean restarts and crashes at chosen journal cuts, and resets whose every datastore access is interleaved with fed keys, concurrent puts, cancellation, Close and crash; TLC validates results, contents after every reopen and sizes against KeystoreTrace.tla.",
+}
+
+
 def overlay_file(scratch, name):
     """Writes the -overlay json for an internal-package driver (add-only mappings)."""
     p = scratch.path("overlay-%s.json" % name)
@@ -632,6 +651,54 @@ def mut_c18_next(run):
     return r
 
 
+def mut_c20_size(run):
+    if "prefixbits" not in run[0]:
+        return None
+    for i, ev in enumerate(run):
+        if ev["e"] == "Size":
+            r = copy.deepcopy(run)
+            r[i]["n"] += 1
+            return r
+    return None
+
+
+def mut_c20_put(run):
+    if "prefixbits" not in run[0]:
+        return None
+    for i, ev in enumerate(run):
+        if ev["e"] == "Put" and ev["err"] == "" and ev["new"] and not ev["during"]:
+            r = copy.deepcopy(run)
+            r[i]["new"] = r[i]["new"][1:]
+            r[i]["nnew"] = len(r[i]["new"])
+            return r
+    return None
+
+
+def mut_c20_reopen(run):
+    if "prefixbits" not in run[0]:
+        return None
+    for i, ev in enumerate(run):
+        if ev["e"] == "Reopen" and ev["content"]:
+            r = copy.deepcopy(run)
+            r[i]["content"] = r[i]["content"][1:]
+            r[i]["ndup"] = len(r[i]["content"])
+            r[i]["size"] = len(r[i]["content"])
+            return r
+    return None
+
+
+def mut_c20_get(run):
+    if "prefixbits" not in run[0]:
+        return None
+    for i, ev in enumerate(run):
+        if ev["e"] == "Get" and ev["ret"]:
+            r = copy.deepcopy(run)
+            r[i]["ret"] = r[i]["ret"][1:]
+            r[i]["nret"] = len(r[i]["ret"])
+            return r
+    return None
+
+
 MUTATIONS = {
     "C01": [mut_c01_unsorted, mut_c01_drop_nearest, mut_c01_resp_event],
     "C02": [mut_c02_unasked],
@@ -642,6 +709,7 @@ MUTATIONS = {
     "C05": [mut_c05_downgrade, mut_c05_invalid_stored, mut_c05_fresh_deleted, mut_c05_stale_read],
     "C07": [mut_c07_missing, mut_c07_stranger, mut_c07_afterclose],
     "C18": [mut_c18_alloc, mut_c18_gaps, mut_c18_regions, mut_c18_next],
+    "C20": [mut_c20_size, mut_c20_put, mut_c20_reopen, mut_c20_get],
     "C19": [mut_c19_order, mut_c19_lostkey, mut_c19_deq, mut_c19_reprov],
     "C12": [mut_c12_stranger, mut_c12_self, mut_c12_noevict, mut_c12_lost_refresh],
 }
